@@ -81,7 +81,7 @@ GStep ==
     \/ Has("noop") /\ Noop /\ Rec([c |-> "noop"])
     \/ \E w \in {"capa", "unknown", "empty", "garbage", "long", "stls"} : Has(w) /\ Other /\ Rec([c |-> w])
     \/ Has("quit") /\ Quit /\ Rec([c |-> "quit"])
-    \/ \E w \in {"drop", "cut"} : Has(w) /\ Drop /\ Rec([c |-> w])
+    \/ \E w \in {"drop", "cut", "idle"} : Has(w) /\ Drop /\ Rec([c |-> w])
     \/ Has("connect") /\ Connect /\ Rec([c |-> "connect"])
     \/ \E mb \in EnvBoxes : Has("deliver") /\ nextId <= MaxId /\ EnvDeliver(mb, nextId, nextId)
                             /\ Rec([c |-> "deliver", mb |-> mb, id |-> nextId])
@@ -130,7 +130,7 @@ QuitRemovesExactlyMarked ==
           /\ IsSubSeq(store'[user], store[user])
           /\ \A m \in Mailbox \ {user} : store'[m] = store[m]]_gvars
 OtherEndingsRemoveNothing ==
-    [][(act' \in {"drop", "cut"} \/ (act' = "quit" /\ st = "AUTH")) => store' = store]_gvars
+    [][(act' \in {"drop", "cut", "idle"} \/ (act' = "quit" /\ st = "AUTH")) => store' = store]_gvars
 CommandsDoNotTouchStore ==
     [][(act' \notin EnvActs \cup {"quit"}) => store' = store]_gvars
 RsetUnmarksAll == [][(act' = "rset" /\ st = "TRANS") => (marked' = {} /\ snap' = snap)]_gvars
